@@ -493,7 +493,8 @@ func (o *operation) validate(transcoder *Transcoder) error {
 
 	// Now that we've ruled out the use of bidi streaming above, it's safe to simulate HTTP/2
 	// for the benefit of gRPC handlers, which require HTTP/2.
-	if o.server.protocol.protocol() == ProtocolGRPC {
+	if o.server.protocol.protocol() == ProtocolGRPC && o.request.ProtoMajor != 2 {
+		// (a request that already is HTTP/2 is left as the server described it)
 		o.request.Proto, o.request.ProtoMajor, o.request.ProtoMinor = "HTTP/2", 2, 0
 	}
 
